@@ -74,6 +74,7 @@ def specified_rules(prog):
 
 
 def check(prog, run):
+    check_all_pairs_within(prog, run, "P1")
     check_allowed_position_table(prog, run, "V1")
     check_parent_exclusivity(prog, run, "E1")
     rcs = rule_classes(prog)
@@ -181,6 +182,17 @@ def check(prog, run):
         isinstance(n.func, ast.Attribute) and n.func.attr == f.name and isinstance(n.func.value, ast.Name) and n.func.value.id == "self"))
         for f in srch for n in own_nodes(f.node))
     closure_breaks(prog, run, r, [ff] + srch)
+    # what the search skips is decided by sets that belong to this search (created in it or handed to it), never by one that
+    # outlives it: a fragment settled while searching from another root may still lie on a cycle of its own
+    for sf in srch:
+        own = set(sf.all_params) | {x.id for x in own_nodes(sf.node) if isinstance(x, ast.Name) and isinstance(x.ctx, ast.Store)}
+        for n in own_nodes(sf.node):
+            if isinstance(n, ast.Compare) and len(n.ops) == 1 and isinstance(n.ops[0], (ast.In, ast.NotIn)) and isinstance(n.comparators[0], ast.Name) \
+                    and n.comparators[0].id not in own and prog.local_binding(sf, n.comparators[0].id)[0] in ("local", "param"):
+                run.report(r, "%s:NoFragmentCyclesChecker.%s:skip-set-outlives-search(%s)" % (RULES, sf.name, n.comparators[0].id), sf.where(n),
+                           "the cycle search consults `%s`, a set of the enclosing function that persists from one root to the next: a "
+                           "fragment reached from an acyclic root is never searched again, so a cycle among fragments defined later goes "
+                           "unreported and the verdict depends on definition order" % n.comparators[0].id)
     r.instance("NoFragmentCyclesChecker search is recursive: %s" % rec)
     if not rec:
         run.report(r, "%s:NoFragmentCyclesChecker.leave_document:not-transitive" % RULES, ld.where(), "cycle search does not follow spreads transitively")
@@ -813,3 +825,76 @@ def check_allowed_position_table(prog, run, rule_id):
     if bad:
         run.report(r, "%s:VariablesInAllowedPositionChecker.leave_document:allowed-position-table" % RULES, ld.where(loops[0]),
                    "the allowed-position verdict is wrong on %d of 256 rows, e.g. %s" % (len(bad), bad[0]), {"rows": bad[:12]})
+
+
+def check_all_pairs_within(prog, run, rule_id):
+    """Every two fields that share a response key within one selection set are compared."""
+    modname = "py_gql.validation.rules.overlapping_fields_can_be_merged"
+    r = run.rule(rule_id, "_conflicts_within hands _find_conflict every unordered pair of the fields collected under one response key: the pairs "
+                          "come from a loop over all positions i with an inner loop over the positions after i (`for i, a in enumerate(L): for b "
+                          "in L[i + 1:]`, itertools.combinations(L, 2), or the helper that is exactly that), never from one fixed element "
+                          "against the rest - sameness is not transitive when some parents are mutually exclusive, and a conflict between "
+                          "the 2nd and 3rd occurrence would go unreported", 2)
+    cw = prog.get_func(modname, "_conflicts_within")
+    run.looked_at(cw)
+
+    def all_pairs_loops(fn_node, lst_name):
+        """does fn_node contain `for i, a in enumerate(L): for b in L[i + 1:]` over L = lst_name? returns (a, b) or None"""
+        for o in ast.walk(fn_node):
+            if isinstance(o, ast.For) and isinstance(o.iter, ast.Call) and isinstance(o.iter.func, ast.Name) and o.iter.func.id == "enumerate" \
+                    and o.iter.args and isinstance(o.iter.args[0], ast.Name) and o.iter.args[0].id == lst_name \
+                    and isinstance(o.target, ast.Tuple) and len(o.target.elts) == 2 and all(isinstance(e, ast.Name) for e in o.target.elts):
+                i, a = o.target.elts[0].id, o.target.elts[1].id
+                for inner in ast.walk(o):
+                    if isinstance(inner, ast.For) and inner is not o and isinstance(inner.iter, ast.Subscript) and isinstance(inner.iter.value, ast.Name) \
+                            and inner.iter.value.id == lst_name and isinstance(inner.iter.slice, ast.Slice) and inner.iter.slice.upper is None \
+                            and inner.iter.slice.step is None and inner.iter.slice.lower is not None \
+                            and " ".join(ast.unparse(inner.iter.slice.lower).split()) in ("%s + 1" % i, "1 + %s" % i) and isinstance(inner.target, ast.Name):
+                        return a, inner.target.id
+        return None
+    calls = [n for n in ast.walk(cw.node) if isinstance(n, ast.Call) and isinstance(n.func, ast.Name) and n.func.id == "_find_conflict"]
+    if len(calls) != 1 or len(calls[0].args) < 5:
+        raise AnalysisError("C06.%s: the _find_conflict call of _conflicts_within was not found" % rule_id)
+    a1, a2 = calls[0].args[3], calls[0].args[4]
+    groups = [n for n in ast.walk(cw.node) if isinstance(n, ast.For) and isinstance(n.iter, ast.Call) and isinstance(n.iter.func, ast.Attribute)
+              and n.iter.func.attr in ("items", "values")]
+    if len(groups) != 1:
+        raise AnalysisError("C06.%s: the loop over response keys of _conflicts_within was not found" % rule_id)
+    gt = groups[0].target
+    lst = gt.elts[-1].id if isinstance(gt, ast.Tuple) and isinstance(gt.elts[-1], ast.Name) else (gt.id if isinstance(gt, ast.Name) else None)
+    verdict, how = None, None
+    if isinstance(a1, ast.Name) and isinstance(a2, ast.Name) and lst:
+        # (1) explicit nested loops in _conflicts_within
+        got = all_pairs_loops(groups[0], lst)
+        if got is not None and {got[0], got[1]} == {a1.id, a2.id}:
+            verdict, how = True, "nested loops over %s and %s[i + 1:]" % (lst, lst)
+        for lp in ast.walk(groups[0]):
+            if verdict is None and isinstance(lp, ast.For) and isinstance(lp.target, ast.Tuple) and [getattr(e, "id", None) for e in lp.target.elts] in ([a1.id, a2.id], [a2.id, a1.id]) \
+                    and isinstance(lp.iter, ast.Call):
+                fn = lp.iter.func
+                nm = fn.attr if isinstance(fn, ast.Attribute) else fn.id if isinstance(fn, ast.Name) else None
+                args = lp.iter.args
+                if nm == "combinations" and len(args) == 2 and isinstance(args[0], ast.Name) and args[0].id == lst and isinstance(args[1], ast.Constant) and args[1].value == 2:
+                    verdict, how = True, "itertools.combinations(%s, 2)" % lst
+                elif len(args) == 1 and isinstance(args[0], ast.Name) and args[0].id == lst:
+                    cal = [c for c in prog.resolve_call(cw, lp.iter) if c.module.name == modname]
+                    if len(cal) == 1:
+                        run.looked_at(cal[0])
+                        ps = cal[0].params
+                        inner = all_pairs_loops(cal[0].node, ps[0]) if ps else None
+                        ys = [y for y in ast.walk(cal[0].node) if isinstance(y, ast.Yield)]
+                        ok = inner is not None and len(ys) == 1 and isinstance(ys[0].value, ast.Tuple) and \
+                            [getattr(e, "id", None) for e in ys[0].value.elts] == [inner[0], inner[1]]
+                        verdict, how = ok, "%s(%s)%s" % (cal[0].name, lst, "" if ok else " which does not yield every pair (i, j > i)")
+    # one fixed element against the rest: the recognisably partial form
+    fixed = [x for x in (a1, a2) if isinstance(x, ast.Name) and any(
+        isinstance(s, ast.Assign) and len(s.targets) == 1 and isinstance(s.targets[0], ast.Name) and s.targets[0].id == x.id
+        and isinstance(s.value, ast.Subscript) and isinstance(s.value.slice, ast.Constant) for s in ast.walk(cw.node))]
+    r.instance("_conflicts_within pairs the fields of a response key through %s" % (how or "an unrecognised construct"))
+    r.instance("one element fixed by a constant index: %s" % bool(fixed))
+    if fixed or verdict is False:
+        run.report(r, "%s:_conflicts_within:not-every-pair" % modname, cw.where(calls[0]),
+                   "_conflicts_within does not compare every pair of the fields under one response key (%s): a conflict between two later "
+                   "occurrences is never looked at" % ("`%s` is one fixed element compared with the rest" % fixed[0].id if fixed else how))
+    elif verdict is None:
+        raise AnalysisError("C06.%s: how _conflicts_within enumerates the pairs of a response key was not recognised" % rule_id)
